@@ -111,27 +111,27 @@ CLAIMED = {
   technique="Lean 4 proof (bit-packing round trip + decide +kernel over the full header product + table equalities) + header-builder correspondence",
   ref="DESIGN.md §5 C05"),
  "C02": dict(
-  text='IFF-style chunk files (AIFF, WAVE, DSDIFF: one dialect-parametrised model, Model/Container/Iff.lean) and APEv2-tagged files (Model/Container/ApeFile.lean) are modelled and tied the same way: iff_save_preserves_chunks, iff_delete_preserves_chunks, ape_save_preserves_audio, ape_delete_preserves_audio, ape_delete_keeps_id3v1. Free-standing ID3 files (MP3, TrueAudio: [ID3v2][audio][ID3v1]) are modelled too (Model/Container/Id3File.lean: ID3Header, find_id3v1, ID3.save, id3.delete) and tied byte for byte on synthesised layouts: id3_save_preserves_audio, id3_delete_preserves_audio. Lean 4 theorems (Props/C02.lean) for FLAC: FLAC._save as a FileM program (resize_bytes; seek; write) on the bytes of any well-formed layout, for every buffer size, padding choice and new block list, leaves a file that the strict format walker accepts and whose prefix, foreign blocks (in order, byte-identical) and audio are unchanged; delete likewise. Partial: the other 21 taggable formats are decided by independent container walkers on the real output over random edit histories (foreign pieces compared byte for byte and in order after every save/delete).',
+  text='Further container models, each with code side, spec side and tie (DESIGN.md §9.10): DSF (dsf_save_preserves_chunks, dsf_delete_preserves_chunks, Props/C02_Dsf.lean), ASF (asf_save_preserves_foreign, asf_delete_preserves_foreign, asf_file_size_patch_only, asf_load_keeps_objects and the placement logic asf_placement_complete/_order/_fits/_names_unique, Props/C02_Asf.lean), Ogg comment injection for Vorbis/Opus/Speex/Theora/FLAC-in-Ogg incl. OggPage.replace/renumber (ogg_save_preserves_streams_and_packets, ogg_delete_preserves_streams_and_packets, ogg_two_vorbis_streams_first_is_edited, Props/C02_OggInject.lean). IFF-style chunk files (AIFF, WAVE, DSDIFF: one dialect-parametrised model, Model/Container/Iff.lean) and APEv2-tagged files (Model/Container/ApeFile.lean) are modelled and tied the same way: iff_save_preserves_chunks, iff_delete_preserves_chunks, ape_save_preserves_audio, ape_delete_preserves_audio, ape_delete_keeps_id3v1. Free-standing ID3 files (MP3, TrueAudio: [ID3v2][audio][ID3v1]) are modelled too (Model/Container/Id3File.lean: ID3Header, find_id3v1, ID3.save, id3.delete) and tied byte for byte on synthesised layouts: id3_save_preserves_audio, id3_delete_preserves_audio. Lean 4 theorems (Props/C02.lean) for FLAC: FLAC._save as a FileM program (resize_bytes; seek; write) on the bytes of any well-formed layout, for every buffer size, padding choice and new block list, leaves a file that the strict format walker accepts and whose prefix, foreign blocks (in order, byte-identical) and audio are unchanged; delete likewise. Partial: the other 21 taggable formats are decided by independent container walkers on the real output over random edit histories (foreign pieces compared byte for byte and in order after every save/delete).',
   note='Trusted: Lean kernel; standard axioms; for FLAC the block-level model (a block is (code, payload as written by its write())) tied to the code by the walker oracle on real output; for the other formats the independent Python walkers in harness/walkers.py (written from the format specifications) are the oracle and nothing is proved yet.',
   technique='Lean 4 proof (refinement of FLAC._save to a layout-level model via the C11 region-replacement theorem) + independent walkers over edit histories',
   ref='DESIGN.md §5 C02'),
  "C03": dict(
-  text='IFF: iff_save_sizes_consistent, iff_delete_sizes_consistent, iff_save_keeps_wellformed (root size = extent, ID3 chunk size = data, pad byte iff odd, strict reader reads the layout back); APEv2: ape_save_wellformed. For free-standing ID3 files: id3_save_header_consistent (the header a reader accepts, its syncsafe size field = frames + padding = the bytes before the audio). Lean 4 theorems (Props/C03.lean) for FLAC: walk(render L) = L for well-formed layouts; by induction over ANY finite history of saves (any comment payload, any padding choice) and deletes the file stays accepted by the strict walker (exactly the final block flagged last, sizes = extents) with unchanged foreign data; the bytes written equal the rendering of the model layout. Ogg page-level validity is Props/C15.lean. Partial: for the other formats structural rules (sizes=extents at every level, even alignment, CRCs/sequence numbers, APEv2 header/footer agreement, DSF size/pointer fields, syncsafe ID3 sizes) and reload + unchanged stream info are checked by the walkers after every step of random histories.',
+  text='DSF: dsf_save_wellformed, dsf_delete_wellformed, dsf_reader_strict (Props/C03_Dsf.lean); ASF: asf_save_wellformed, asf_delete_wellformed, asf_strict_reader_reads_layout, asf_ext_data_size, asf_file_size_field_correct(+_delete) (Props/C03_Asf.lean); Ogg: ogg_edit_pages_valid (every page renders and the strict reader with its own CRC reads the file back), ogg_edit_sequence_gapless, ogg_edit_continuation_consistent, ogg_edit_first_last_flags (Props/C03_OggInject.lean). IFF: iff_save_sizes_consistent, iff_delete_sizes_consistent, iff_save_keeps_wellformed (root size = extent, ID3 chunk size = data, pad byte iff odd, strict reader reads the layout back); APEv2: ape_save_wellformed. For free-standing ID3 files: id3_save_header_consistent (the header a reader accepts, its syncsafe size field = frames + padding = the bytes before the audio). Lean 4 theorems (Props/C03.lean) for FLAC: walk(render L) = L for well-formed layouts; by induction over ANY finite history of saves (any comment payload, any padding choice) and deletes the file stays accepted by the strict walker (exactly the final block flagged last, sizes = extents) with unchanged foreign data; the bytes written equal the rendering of the model layout. Ogg page-level validity is Props/C15.lean. Partial: for the other formats structural rules (sizes=extents at every level, even alignment, CRCs/sequence numbers, APEv2 header/footer agreement, DSF size/pointer fields, syncsafe ID3 sizes) and reload + unchanged stream info are checked by the walkers after every step of random histories.',
   note='Trusted: Lean kernel; standard axioms; for FLAC the block-level model (a block is (code, payload as written by its write())) tied to the code by the walker oracle on real output; for the other formats the independent Python walkers in harness/walkers.py (written from the format specifications) are the oracle and nothing is proved yet.',
   technique='Lean 4 proof (induction over edit histories of a layout-level model, parse/render round trip) + independent walkers',
   ref='DESIGN.md §5 C03'),
  "C07": dict(
-  text="Lean 4 theorems (Props/C07.lean) for FLAC: saving the layout just saved with the default padding policy is the identity (uses the regenerated policy's idempotence), and an unchanged save keeps every non-padding block in order and byte-identical. Partial: for the other formats load-save-reload-save byte identity and tag equality are checked on the real code over random histories; the ID3/APEv2 insertion-order theorems are not yet built.",
+  text="Order independence and re-save theorems: ape_order_independent, id3_order_independent, id3_resave_idempotent, ape_resave_idempotent, dsf_resave_idempotent, asf_save_twice_same_object, asf_save_reload_idempotent, asf_resave_keep_identical, ogg_save_same_packet_unchanged, ogg_second_save_identical_partial (the full Ogg two-save statement is kept unproved as ogg_save_twice_statement, see DESIGN.md §9.10). Lean 4 theorems (Props/C07.lean) for FLAC: saving the layout just saved with the default padding policy is the identity (uses the regenerated policy's idempotence), and an unchanged save keeps every non-padding block in order and byte-identical. Partial: for the other formats load-save-reload-save byte identity and tag equality are checked on the real code over random histories; the ID3/APEv2 insertion-order theorems are not yet built.",
   note='Trusted: Lean kernel; standard axioms; for FLAC the block-level model (a block is (code, payload as written by its write())) tied to the code by the walker oracle on real output; for the other formats the independent Python walkers in harness/walkers.py (written from the format specifications) are the oracle and nothing is proved yet.',
   technique='Lean 4 proof (idempotence of the layout-level save with the generated padding policy) + resave differential on real files',
   ref='DESIGN.md §5 C07'),
  "C08": dict(
-  text='IFF: iff_delete_removes_chunk, iff_delete_untagged, iff_delete_then_wellformed, iff_delete_idempotent, iff_retag_after_delete; APEv2: ape_delete_leaves_audio, ape_delete_idempotent_and_retag. Lean 4 theorems (Props/C08.lean) for FLAC: after delete no Vorbis comment block and no padding payload remain, foreign data is untouched, delete is idempotent, and a later save yields a well-formed file. Partial: for the other formats delete by method and by module function is checked on the real code: tags gone on reload, in-memory tags cleared, no byte of a removed (marked) value, no padding, no tag header for free-standing ID3/APEv2, idempotent, re-taggable, also after an intermediate save of the empty tags.',
+  text='DSF, ASF, Ogg: dsf_delete_leaves_chunks, dsf_delete_idempotent, dsf_retag_after_delete, asf_delete_removes_tags, asf_empty_objects_hold_nothing, asf_delete_twice, asf_save_after_delete, ogg_delete_is_save_of_empty_comment, ogg_delete_packet(_special), ogg_delete_removes_only_the_comments, ogg_delete_again_unchanged; free-standing ID3: id3_delete_leaves_audio, id3_delete_idempotent, id3_retag_after_delete. IFF: iff_delete_removes_chunk, iff_delete_untagged, iff_delete_then_wellformed, iff_delete_idempotent, iff_retag_after_delete; APEv2: ape_delete_leaves_audio, ape_delete_idempotent_and_retag. Lean 4 theorems (Props/C08.lean) for FLAC: after delete no Vorbis comment block and no padding payload remain, foreign data is untouched, delete is idempotent, and a later save yields a well-formed file. Partial: for the other formats delete by method and by module function is checked on the real code: tags gone on reload, in-memory tags cleared, no byte of a removed (marked) value, no padding, no tag header for free-standing ID3/APEv2, idempotent, re-taggable, also after an intermediate save of the empty tags.',
   note='Trusted: Lean kernel; standard axioms; for FLAC the block-level model (a block is (code, payload as written by its write())) tied to the code by the walker oracle on real output; for the other formats the independent Python walkers in harness/walkers.py (written from the format specifications) are the oracle and nothing is proved yet.',
   technique='Lean 4 proof (layout-level delete) + marked-value search on real files',
   ref='DESIGN.md §5 C08'),
  "C09": dict(
-  text="IFF: iff_padding_obeyed, iff_negative_padding_refused, iff_keep_is_inplace. Lean 4 theorems (Props/C09.lean): the default padding policy (translated from PaddingInfo.get_default_padding on every run) is non-negative, keeps existing padding up to 10 KiB + 1 % (in particular up to 1 KiB), is idempotent, and no callback = callback returning the default; for FLAC the padding in the saved file equals min(callback(available − needed, audio size), 2^24−1) and answering with the offered padding leaves the file length unchanged. Partial: for the other formats the callback's arguments and effect are checked on the real code (padding measured by the walkers, file-size change = answer − offered padding, keep ⇒ in place, exactly one call).",
+  text="DSF, ASF, Ogg, ID3: dsf_padding_obeyed, dsf_keep_is_inplace, asf_padding_obeyed, asf_keep_is_inplace, asf_default_reuses_padding, ogg_padding_obeyed, ogg_negative_padding_is_none, ogg_default_padding, ogg_keep_is_inplace, ogg_opus_preserved_data_kept, oggflac_no_padding, id3_padding_obeyed, id3_keep_is_inplace. IFF: iff_padding_obeyed, iff_negative_padding_refused, iff_keep_is_inplace. Lean 4 theorems (Props/C09.lean): the default padding policy (translated from PaddingInfo.get_default_padding on every run) is non-negative, keeps existing padding up to 10 KiB + 1 % (in particular up to 1 KiB), is idempotent, and no callback = callback returning the default; for FLAC the padding in the saved file equals min(callback(available − needed, audio size), 2^24−1) and answering with the offered padding leaves the file length unchanged. Partial: for the other formats the callback's arguments and effect are checked on the real code (padding measured by the walkers, file-size change = answer − offered padding, keep ⇒ in place, exactly one call).",
   note='Trusted: Lean kernel; standard axioms; for FLAC the block-level model (a block is (code, payload as written by its write())) tied to the code by the walker oracle on real output; for the other formats the independent Python walkers in harness/walkers.py (written from the format specifications) are the oracle and nothing is proved yet.',
   technique='Lean 4 proof (arithmetic of the generated policy; FLAC layout-level save) + padding measurement on real files',
   ref='DESIGN.md §5 C09'),
